@@ -303,6 +303,7 @@ struct E2 : Engine {
 			recs.clear(); ci.reset(); c.cache = 0; srv.reset();
 		}
 		res.hash = simk::trace_hash() ^ runner::fnv(std::to_string(c.cnt["fetch_hit"]) + ":" + std::to_string(c.cnt["fetch_miss"]));
+		res.counters["sim_seconds"] = (long long)((simk::now_us() - sp.start_time_s*1000000LL)/1000000);
 		simk::end();
 		for(auto &kv:c.cnt) res.counters[kv.first] = (long long)kv.second;
 		res.counters["ops"] = (long long)ops.size(); if(c.inconclusive) res.counters["inconclusive_runs"] = 1;
